@@ -196,7 +196,7 @@ C04(pre, env, req, resp, post) ==
   IF req.kind \in RevAskKinds /\ req.id \in DOMAIN pre.asks THEN
     LET a == pre.asks[req.id]
         c == IF PartialGiven(req) THEN req.size ELSE a.size
-        valid == c >= 1 /\ c % pre.cfg.inc = 0 /\ c <= a.size
+        valid == c >= 1 /\ pre.cfg.inc > 0 /\ c % pre.cfg.inc = 0 /\ c <= a.size
         xs ==    Xfer(TRUE, Contract, a.owner, a.base, c)
               \o Xfer(a.class = "ready", Contract, a.approver, pre.cfg.base, c)
         left == a.size - c
@@ -210,7 +210,7 @@ C04(pre, env, req, resp, post) ==
   ELSE IF req.kind \in RevBidKinds /\ req.id \in DOMAIN pre.bids /\ pre.bids[req.id].fmt = "v3" THEN
     LET b == pre.bids[req.id]
         c == IF PartialGiven(req) THEN req.size ELSE RemB(b)
-        valid == c >= 1 /\ c % pre.cfg.inc = 0 /\ c <= RemB(b)
+        valid == c >= 1 /\ pre.cfg.inc > 0 /\ c % pre.cfg.inc = 0 /\ c <= RemB(b)
         cq == Times(b.price, c)
         keeps == IF b.fee.some THEN ProRataSet(b.fee.amt, RemQ(b) - cq, b.qamt) ELSE {0}
         cfs == {RemF(b) - k : k \in keeps}
@@ -723,5 +723,6 @@ StepClauses(pre, env, req, resp, post) ==
 
 \* `frozen`: no migration has overridden a fee since the open bids were placed
 StateClauses(S, frozen, native) ==
+  IF ~S.cfg.set THEN {} ELSE      \* a store without a configuration holds no admitted orders
   C08State(S) \cup C09State(S, native) \cup C11State(S, native) \cup C12State(S, frozen, native) \cup C13State(S)
 =============================================================================
